@@ -533,6 +533,70 @@ void add_long(mc::Main& m, std::vector<std::string> tiers)
 
 } // namespace
 
+// haystack and needle are views into ONE buffer (added after seeded breakage c08_starts_with_pointer_identity: a
+// pointer-identity fast path `if (sv.data() == data()) return true;` in starts_with forgot sv.size() <= size(); every
+// other job gives each view its own allocation, where data() never coincide).
+// Enumerated: every ordered pair of sub-views [i,i+l) of an exact-size, unterminated 6-character buffer (28 sub-views
+// incl. the 7 empty ones at every offset) x every two-view operation x pos in {0,1,2,size,npos}.
+template <typename Char>
+void add_same_buffer(mc::Main& m, std::vector<std::string> tiers)
+{
+    m.job(cat(cname<Char>(), "/same-buffer"), tiers, [=](mc::Reporter& r) {
+        using EV            = etl::basic_string_view<Char>;
+        using SV            = std::basic_string_view<Char>;
+        constexpr auto npos = std::size_t(-1);
+        char const* text    = "aabaab";
+        std::size_t const L = 6;
+        mc::GuardedBlock<Char> blk(L);
+        for (std::size_t i = 0; i < L; ++i) { blk.data()[i] = Char(text[i]); }
+        Char const* const b = blk.data();
+        std::uint64_t evals = 0, nontrivial = 0;
+        auto pos_of         = [](std::size_t p) { return p == npos ? -1L : long(p); };
+        for (std::size_t i1 = 0; i1 <= L; ++i1) {
+            for (std::size_t l1 = 0; i1 + l1 <= L; ++l1) {
+                for (std::size_t i2 = 0; i2 <= L; ++i2) {
+                    for (std::size_t l2 = 0; i2 + l2 <= L; ++l2) {
+                        EV const eh(b + i1, l1), en(b + i2, l2);
+                        SV const sh(b + i1, l1), sn(b + i2, l2);
+                        std::string const cls  = i1 == i2 ? (l2 > l1 ? "same_start+needle_longer" : "same_start") : ((i2 >= i1 && i2 + l2 <= i1 + l1) ? "needle_inside_haystack" : "overlapping_or_disjoint");
+                        auto const kase        = [&](char const* op, std::size_t pos) {
+                            return cat(cname<Char>(), " buffer=\"", text, "\" hay=[", i1, ",", i1 + l1, ") needle=[", i2, ",", i2 + l2, ") ", op, pos == npos - 1 ? std::string() : cat(" pos=", pos_of(pos)));
+                        };
+                        auto check = [&](char const* subject, std::size_t pos, long e, long s) {
+                            ++evals;
+                            if (e != s) { r.violation("C08", cat("basic_string_view::", subject), cls, kase(subject, pos), cat("tetl ", e, " std ", s)); }
+                        };
+                        if (l1 > 0 && l2 > 0) { ++nontrivial; }
+                        for (std::size_t pos : {std::size_t(0), std::size_t(1), std::size_t(2), l1, npos}) {
+                            check("find(sv,pos)", pos, pos_of(eh.find(en, pos)), pos_of(sh.find(sn, pos)));
+                            check("rfind(sv,pos)", pos, pos_of(eh.rfind(en, pos)), pos_of(sh.rfind(sn, pos)));
+                            check("find_first_of(sv,pos)", pos, pos_of(eh.find_first_of(en, pos)), pos_of(sh.find_first_of(sn, pos)));
+                            check("find_last_of(sv,pos)", pos, pos_of(eh.find_last_of(en, pos)), pos_of(sh.find_last_of(sn, pos)));
+                            check("find_first_not_of(sv,pos)", pos, pos_of(eh.find_first_not_of(en, pos)), pos_of(sh.find_first_not_of(sn, pos)));
+                            check("find_last_not_of(sv,pos)", pos, pos_of(eh.find_last_not_of(en, pos)), pos_of(sh.find_last_not_of(sn, pos)));
+                        }
+                        auto sgn = [](int c) { return long((c > 0) - (c < 0)); };
+                        check("compare(sv)", npos - 1, sgn(eh.compare(en)), sgn(sh.compare(sn)));
+                        check("starts_with(sv)", npos - 1, long(eh.starts_with(en)), long(sh.starts_with(sn)));
+                        check("ends_with(sv)", npos - 1, long(eh.ends_with(en)), long(sh.ends_with(sn)));
+                        check("contains(sv)", npos - 1, long(eh.contains(en)), long(sh.find(sn) != npos));
+                        check("operator==", npos - 1, long(eh == en), long(sh == sn));
+                        check("operator<", npos - 1, long(eh < en), long(sh < sn));
+                        if (l1 > 0) {
+                            check("starts_with(ch)", npos - 1, long(en.starts_with(eh.front())), long(sn.starts_with(sh.front())));
+                            check("ends_with(ch)", npos - 1, long(en.ends_with(eh.back())), long(sn.ends_with(sh.back())));
+                        }
+                    }
+                }
+            }
+        }
+        if (!blk.intact()) { r.violation("C02", "basic_string_view (same buffer)", "canary", "sub-views of one buffer", "a const operation wrote to the buffer"); }
+        r.sample(cat(cname<Char>(), ": all 28 x 28 ordered pairs of sub-views of one 6-character buffer x 37 calls"));
+        r.count("evaluations", evals);
+        r.count("distinct_nontrivial", nontrivial);
+    });
+}
+
 int main(int argc, char** argv)
 {
     mc::Main m(argc, argv);
@@ -547,6 +611,8 @@ int main(int argc, char** argv)
     add_wide<char16_t>(m, both);
     add_wide<char32_t>(m, both);
     add_wide<wchar_t>(m, both);
+    add_same_buffer<char>(m, both);
+    add_same_buffer<wchar_t>(m, both);
     add_long<char>(m, both);
     add_long<char16_t>(m, both);
     add<char>(m, th, 8, 5, false);
